@@ -791,6 +791,10 @@ impl Router {
                         reasons.push(UnsubAckReason::Success);
                         self.scheduler.untrack(id, filter);
                         self.datalog.remove_waiters_for_id(id, filter);
+                        // a publish earlier in this batch may have moved the parked request
+                        // to the pending notifications already
+                        self.notifications
+                            .retain(|(cid, request)| !(*cid == id && &request.filter == filter));
                     }
 
                     // reasons are used in MQTTv5
